@@ -44,7 +44,7 @@ def shape_strategy(big):
     dec = st.fixed_dictionaries({
         "kind": st.just("decompress"),
         "blocks": st.one_of(st.integers(1, 8), st.integers(1, 60 if big else 24)),
-        "fam": st.sampled_from(["tiny", "mid", "runheavy", "flood", "flood-runs", "trunc", "multistream"]),
+        "fam": st.sampled_from(["tiny", "mid", "runheavy", "flood", "flood-runs", "trunc", "multistream", "dense"]),
         "ing": st.sampled_from([None, None, 4, 8, 64, 1024, 65536]),
         "outg": st.sampled_from([None, None, 1, 7, 100, 5000, 100000]),
         "seed": st.integers(0, 10**6),
@@ -62,7 +62,7 @@ def strategy(big):
         return st.fixed_dictionaries({
             "shape": shape_strategy(big),
             "n": st.sampled_from([1, 2, 2, 3, 3, 4, 5, 8, 16]),
-            "scheds": st.lists(st.tuples(st.sampled_from(["pct", "pct", "pct", "rw", "rr", "perturb"]),
+            "scheds": st.lists(st.tuples(st.sampled_from(["pct", "pct", "rw", "rw", "rr", "perturb"]),
                                          st.integers(0, 10**6), st.integers(1, 4)).map(list),
                                min_size=4, max_size=6),
             "variant": st.sampled_from(["rel", "rel", "rel", "asan"]),
@@ -126,6 +126,24 @@ def build_input(exe, sh):
             d = b"".join(parts)
         else:
             z = bz2.compress(d, 1)
+    elif fam == "dense":
+        # hundreds of minimal streams whose symbol map spells the block-header pattern: one spurious candidate every
+        # ~60 bytes, so the scanners get dozens of speculative blocks ahead of the parser inside one input block and
+        # park them in every output slot
+        # The candidates must sit in a LATER input block than the one the parser works in (each input block has
+        # its own scan job): either > 256 KiB of such streams at the production block size, or smaller input blocks
+        # that still hold more candidates than there are output slots (16 per worker).
+        al = corpus.magic_alphabet()
+        parts = []
+        g = [16384, 16384, 16384, 65536, 16384, 16384, 65536, None][sh["seed"] % 8]
+        sh = dict(sh, ing=None, dense_granul=g)
+        for i in range(4600 if g is None else 25 * nb + 500 if g == 16384 else 2200):
+            p = bytearray(al)
+            if i % 3:
+                r.shuffle(p)
+            parts.append(bytes(p) + bytes(r.choices(al, k=r.choice([0, 0, 3, 40]))))
+        z = b"".join(bz2.compress(p, 1 + i % 9) for i, p in enumerate(parts))
+        d = b"".join(parts)
     elif fam == "runheavy":
         segs = []
         for _ in range(min(nb, 12)):
@@ -136,6 +154,8 @@ def build_input(exe, sh):
     else:   # mid / trunc
         d = plain.seg_bytes(("text", min(nb, 30) * 20000, sh["seed"]))[:min(nb, 30) * 100000 - 777]
         z = bz2.compress(d, 1)
+    if sh.get("dense_granul"):
+        env["LBZIP2_VERIF_IN_GRANUL"] = str(sh["dense_granul"])
     if sh.get("ing"):
         env["LBZIP2_VERIF_IN_GRANUL"] = str(max(sh["ing"], (len(z) // 5000 + 4) // 4 * 4))
     if sh.get("outg"):
@@ -227,6 +247,8 @@ def make_eval(exes):
             argv = [exe] + argv_tail + ["-n", str(case["n"])]
             # calibration run (also an explored schedule): round robin
             scheds = [["rr", case["scheds"][0][1], 1]] + [list(s) for s in case["scheds"]]
+            if case["shape"].get("fam") == "dense":
+                scheds = scheds[:3]         # thousands of tasks per run: fewer schedules per input, more inputs
             est = 2000
             fail = None
             for si, s in enumerate(scheds):
@@ -295,7 +317,7 @@ def replay_file(path):
 def run(tier, seed):
     t0 = time.time()
     exes = core.build_many(["rel", "asan"])
-    n = 420 if tier == "quick" else 12000
+    n = 320 if tier == "quick" else 12000
     stats, fails = core.hyp_search(strategy(tier != "quick"), make_eval(exes), n, seed)
     oc = core.conclude(PID, fails, replay_case)
     core.write_evidence(PID, tier, seed, "exploration", stats, RULE, time.time() - t0,
